@@ -2,7 +2,6 @@ import Sparrow.Model.Stokes
 import Sparrow.Model.Bake
 import Sparrow.Proofs.FrameLemmas
 import Sparrow.Proofs.RealInst
-import Sparrow.Generated.Constants
 import Mathlib.Algebra.BigOperators.Group.Finset.Basic
 import Mathlib.Tactic.Ring
 import Mathlib.Tactic.Linarith
@@ -37,13 +36,6 @@ theorem boole_linear (x y z : Nat → ℝ) (c : ℝ) :
     boole x (fun i => y i + c * z i) = boole x y + c * boole x z := by
   unfold boole
   ring
-
-/-- the weights in the source, regenerated on every run -/
-theorem boole_weights_as_modelled :
-    Generated.booleWeights = [7, 32, 12, 32, 7] ∧ Generated.booleNum = 2 ∧ Generated.booleDen = 45 ∧
-    Generated.booleWeights.sum = 90 ∧ Generated.stokesNPoints = 5 ∧ Generated.stokesCutoff = (1, 1000) ∧
-    Generated.nusseltSamples = 64 ∧ Generated.coincidenceThreshold = (1, 1000000) := by
-  decide
 
 /-! ### boundary sampling -/
 
